@@ -200,6 +200,30 @@ Proof.
   intros k H. vm_compute in H. repeat (destruct H as [H|H]; [discriminate H|]). exact H.
 Qed.
 
+(* value-equal actions are separate entries of the queue and of [deferred] (lists, not sets): two identical
+   creations that wait for the same promise are both parked and both executed once the promise is declared —
+   the list gets two members whether the promise is declared before or after (success_executes_everything_once
+   speaks about [shells d] as a list, i.e. with multiplicity) *)
+Definition ex_twin : item := IObj None nKa [(a_super, SRef (RProm 2%N))] GNil.
+Definition ex_i4 : instr :=
+  mkInstr (RObj PK) GNil (GCons a_classes (ICons ex_twin (ICons ex_twin INil)) GNil) [] [].
+Definition n_defers (s : st) : nat :=
+  length (filter (fun e => match e with TDefer _ _ => true | _ => false end) (sT s)).
+Example twins_both_created : exists s s',
+  run (compile [ex_i4; wit_i0]) = Done s /\ run (compile [wit_i0; ex_i4]) = Done s' /\
+  read_list PK a_classes (final_log s) = [nKa; nKa] /\ read_list PK a_classes (final_log s') = [nKa; nKa] /\
+  n_defers s = 2%nat /\ n_defers s' = 0%nat /\
+  Permutation (sX s) (shells (compile [ex_i4; wit_i0])) /\ length (shells (compile [ex_i4; wit_i0])) = 6%nat.
+Proof.
+  assert (exists s, run (compile [ex_i4; wit_i0]) = Done s) as [s E] by (eexists; vm_compute; reflexivity).
+  pose proof (proj1 (success_executes_everything_once _ _ E)) as Hp.
+  exists s. eexists. split; [exact E|]. split; [vm_compute; reflexivity|].
+  vm_compute in E. injection E as E. subst s.
+  split; [vm_compute; reflexivity|]. split; [vm_compute; reflexivity|].
+  split; [vm_compute; reflexivity|]. split; [vm_compute; reflexivity|].
+  split; [exact Hp | vm_compute; reflexivity].
+Qed.
+
 (* witness (Proofs/DeclP.v: wit_i0, wit_i1): i1 appends two classes [Ka (super: !promise 2); Kb] to one list,
    i0 declares promise 2 in another list.  No two instructions extend the same list, yet the order inside
    the list differs: the member that has to wait is appended after its sibling (known finding
